@@ -394,6 +394,10 @@ example : (FieldOp.mk [exTerm]).isHermitian = .ok true ∧
 def exNear : Term :=
   ⟨[⟨exField, .fermiCreate⟩, ⟨exField, .fermiAnnihil⟩], ⟨[2, 2], #[⟨1, 0⟩, ⟨2 + 1 / 2 ^ 30, 1⟩, ⟨2, -1⟩, ⟨3, 0⟩]⟩⟩
 example : exNear.isHermitianTol (1 / 10 ^ 8) (1 / 10 ^ 5) = true ∧ exNear.isHermitian = false := by decide +kernel
+/-- `op.Good`, `Term.Pre` and "out of range" are inhabited -/
+example : (ladderOp exField 1 true).Good exField := (C10_exec_ladder exField rfl ⟨1, by decide⟩ true).1
+example : exTerm.Pre := ⟨rfl, by decide, by decide⟩
+example : exTerm.OutOfRange 1 := ⟨[0, 1], by decide, by decide, 1, by decide, le_refl 1⟩
 example : Term.make exTerm.opdesc ⟨[2], #[0, 0]⟩ = .error .valueError := by decide
 example : (FieldOp.mk []).asMatrix = .error .notImplementedError := rfl
 /-- `clist[0]` on two sites is `kron(U, Z)`: rows `[0,0,0,0], [0,0,0,0], [1,0,0,0], [0,-1,0,0]` -/
